@@ -1,4 +1,4 @@
-HOOK_COMMITS = ["299a240", "H5 concurrencylimiter yield point (plus go:build follow-up commit)"]
+HOOK_COMMITS = ["299a240", "e13245c"]
 NOT_APPLICABLE = {}
 CLAIMS = {
     "C03": dict(
@@ -9,4 +9,8 @@ CLAIMS = {
         text="Generated multi-goroutine programs over Acquire / release (own, repeated, by another goroutine, during a temporary release) / nested TemporarilyRelease / cancelled and limiter-less contexts, stepped by a driver in a drawn global order with blocked steps left in flight; a verif-tagged yield point inside holder.block lets the driver run other steps inside the re-acquire window. Oracle: an undercounting holder count never exceeds the limit; after wind-down exactly n tokens can be acquired. Exploration of schedules the harness owns, plus -race in the thorough tier.",
         ref="DESIGN.md 4/C20", technique="stateful property-based testing (rapid) with harness-owned schedule and yield-point injection; invariant over the history",
         note="holder count undercounts by construction, so a report is a real excess; windows narrower than the instrumented yield site are only reachable by the OS scheduler"),
+    "C05": dict(
+        text="Generated crowds of concurrent Invoke callers (arrival offsets around the wait-interval / max-duration timers, shards, MaxSize, outcome plan ok/error/panic/short/long/slow per invocation, per-caller and shared cancellation, optional concurrency limiter, drawn sleeps at verif yield sites inside Invoke). The batch function records every invocation; oracle checks own-result correspondence, at-most-once / exactly-once hand-over, MaxSize, shard purity, error attribution and that every caller returns (10 s watchdog vs <=10 ms timers).",
+        ref="DESIGN.md 4/C05", technique="property-based testing (rapid) of concurrent callers against a recording batch function; invariants over the invocation log",
+        note="which callers share a batch is timing dependent and not asserted; schedules limited to arrival offsets, yield-site sleeps and the OS scheduler (+ -race in thorough)"),
 }
